@@ -144,3 +144,17 @@ Proof.
   pose proof (optimal_from_range (fun j => cost j collected) 15 (2 + 1) (cost 2 collected) 2 ltac:(lia)) as R.
   change (Z.of_nat 15) with 15 in R. lia.
 Qed.
+
+(* ---- the query list handed to the log-derivative argument (commit): per checked (value, width): its
+   limbs, followed by the shifted most significant limb when the limb width does not divide the width ---- *)
+Definition rc_queries_one (b n v : Z) : list Z :=
+  let k := Z.to_nat (decomp_size n b) in
+  let ls := decompose b k v in
+  let shift := Z.of_nat k * b - n in
+  if shift >? 0 then ls ++ [last ls 0 * 2^shift] else ls.
+
+Fixpoint rc_queries (b : Z) (widths vals : list Z) : list Z :=
+  match widths, vals with
+  | n :: ws, v :: vs => rc_queries_one b n v ++ rc_queries b ws vs
+  | _, _ => []
+  end.
